@@ -1,5 +1,6 @@
 //! Scenario `cw20`: the real `cw20_base` entry points in direct mode.
 // SCENARIO cw20 crate::scen_cw20::Cw20Scen::new()
+// SCENARIO cw20wide crate::scen_cw20::Cw20Scen::new_wide()
 use crate::common::*;
 use cosmwasm_std::testing::{mock_env, MockApi, MockQuerier};
 use cosmwasm_std::{
@@ -23,6 +24,8 @@ pub struct Cw20Scen {
     inited: bool,
     legacy: bool,
     seed: u64,
+    /// `cw20wide`: 36 actors, so listings exceed the maximum page size (C20)
+    wide: bool,
 }
 
 fn new_deps() -> Deps {
@@ -38,7 +41,13 @@ const U128MAX: u128 = u128::MAX;
 
 impl Cw20Scen {
     pub fn new() -> Self {
-        Cw20Scen { deps: new_deps(), env: mock_env(), pool: vec![], inited: false, legacy: false, seed: 0 }
+        Cw20Scen { deps: new_deps(), env: mock_env(), pool: vec![], inited: false, legacy: false, seed: 0, wide: false }
+    }
+
+    pub fn new_wide() -> Self {
+        let mut s = Self::new();
+        s.wide = true;
+        s
     }
 
     fn q<T: serde::de::DeserializeOwned>(&self, msg: QueryMsg) -> Option<T> {
@@ -85,12 +94,15 @@ impl Cw20Scen {
         }
         let mut rng = Rng::new(hash_str(salt) ^ self.seed);
         let mut lim = || -> Option<u32> {
-            match rng.below(6) {
+            match rng.below(9) {
                 0 => None,
                 1 => Some(1),
                 2 => Some(2),
                 3 => Some(3),
                 4 => Some(30),
+                5 => Some(29),
+                6 => Some(31),
+                7 => Some(1000),
                 _ => Some(7),
             }
         };
@@ -146,8 +158,25 @@ impl Cw20Scen {
                 let rest = parts.next().unwrap_or("");
                 allowsp.push(format!("{}>{}:{}", owner, o, rest));
             }
-            for s in &self.pool {
-                if let Some(a) = self.allowance(o, s) {
+            if !self.wide {
+                for s in &self.pool {
+                    if let Some(a) = self.allowance(o, s) {
+                        if !a.allowance.is_zero() || a.expires != (cw_utils::Expiration::Never {}) {
+                            pallow.push(format!("{}>{}:{}:{}", o, s, a.allowance, render_exp(&a.expires)));
+                        }
+                    }
+                }
+            }
+        }
+        if self.wide {
+            // point queries for every pair that occurs in either listing view
+            let mut keys: Vec<String> =
+                allow.iter().chain(allowsp.iter()).map(|e| e.split(':').next().unwrap().to_string()).collect();
+            keys.sort();
+            keys.dedup();
+            for k in keys {
+                let (o, s) = k.split_once('>').unwrap();
+                if let Some(a) = self.allowance(&Addr::unchecked(o), &Addr::unchecked(s)) {
                     if !a.allowance.is_zero() || a.expires != (cw_utils::Expiration::Never {}) {
                         pallow.push(format!("{}>{}:{}:{}", o, s, a.allowance, render_exp(&a.expires)));
                     }
@@ -262,7 +291,7 @@ impl Cw20Scen {
 
     fn gen_inst(&self, rng: &mut Rng) -> String {
         let legacy = rng.chance(1, 6);
-        let n = rng.below(6) as usize;
+        let n = if self.wide { rng.below(self.pool.len() as u64 + 1) as usize } else { rng.below(6) as usize };
         let mut bal = vec![];
         let mut total: u128 = 0;
         for i in 0..n {
@@ -326,9 +355,10 @@ impl Cw20Scen {
 impl Scenario for Cw20Scen {
     fn start(&mut self, seed: u64, trace: u64) -> String {
         let api = MockApi::default();
-        let p = pool(&api, 5);
+        let p = pool(&api, if self.wide { 36 } else { 5 });
         let header = format!(
-            "scenario cw20 seed={} trace={} pool={}",
+            "scenario {} seed={} trace={} pool={}",
+            if self.wide { "cw20wide" } else { "cw20" },
             seed,
             trace,
             p.iter().map(|a| a.to_string()).collect::<Vec<_>>().join(",")
@@ -359,11 +389,15 @@ impl Scenario for Cw20Scen {
             return format!("env height={} time={}", self.env.block.height + dh, self.env.block.time.nanos() + dt);
         }
         if r < 16 {
-            let lim = match rng.below(8) {
+            let lim = match rng.below(10) {
                 0 => "-".to_string(),
                 1 => "0".to_string(),
                 2 => "31".to_string(),
                 3 => "4000000000".to_string(),
+                4 => "30".to_string(),
+                5 => "29".to_string(),
+                6 => "10".to_string(),
+                7 => "11".to_string(),
                 _ => rng.below(5).to_string(),
             };
             let after = match rng.below(4) {
@@ -389,6 +423,28 @@ impl Scenario for Cw20Scen {
         if r < 22 || (self.legacy && r < 30) {
             self.legacy = false;
             return "migrate".to_string();
+        }
+        if self.wide && rng.chance(3, 5) {
+            // grow the listings: many accounts, many spenders of few owners, many owners of few spenders
+            let few = &self.pool[..3];
+            return match rng.below(4) {
+                0 => {
+                    let holders: Vec<Addr> = self.pool.iter().filter(|a| self.bal(a) > 0).cloned().collect();
+                    let snd = if holders.is_empty() { rng.pick(&self.pool).clone() } else { rng.pick(&holders).clone() };
+                    format!("exec {snd} transfer to=+{} amt={}", rng.pick(&self.pool), rng.below(3))
+                }
+                1 => format!("exec {} increase_allowance spender=+{} amt={} expires=-", rng.pick(few), rng.pick(&self.pool), 1 + rng.below(50)),
+                2 => format!("exec {} increase_allowance spender=+{} amt={} expires=-", rng.pick(&self.pool), rng.pick(few), 1 + rng.below(50)),
+                _ => {
+                    let lim = *rng.pick(&["-", "0", "1", "9", "10", "11", "29", "30", "31", "32", "100"]);
+                    let after = if rng.chance(1, 3) { "-".to_string() } else { rng.pick(&self.pool).to_string() };
+                    match rng.below(3) {
+                        0 => format!("query all_accounts after={after} limit={lim}"),
+                        1 => format!("query all_allowances owner=+{} after={after} limit={lim}", rng.pick(few)),
+                        _ => format!("query all_spender_allowances spender=+{} after={after} limit={lim}", rng.pick(few)),
+                    }
+                }
+            };
         }
         let snd = rng.pick(&self.pool).clone();
         let minter: Option<Option<MinterResponse>> = self.q(QueryMsg::Minter {});
@@ -439,7 +495,8 @@ impl Scenario for Cw20Scen {
         } else {
             // draws: pick an (owner, spender) pair that has an allowance when possible
             let mut pairs = vec![];
-            for o in &self.pool {
+            let owners: Vec<Addr> = if self.wide { (0..4).map(|_| rng.pick(&self.pool).clone()).collect() } else { self.pool.clone() };
+            for o in &owners {
                 for s in &self.pool {
                     if let Some(a) = self.allowance(o, s) {
                         if !a.allowance.is_zero() {
